@@ -50,7 +50,7 @@ MIN_PER_SHARD = 2
 TIME = {'quick': 12, 'thorough': 840}
 CRASHY = True
 
-FEATURES = cdefgen.DEFAULT_FEATURES | frozenset(['const_novalue'])     # 'static const int K;' works in verify() too
+FEATURES = cdefgen.DEFAULT_FEATURES | frozenset(['const_novalue', 'variadic'])     # 'static const int K;' works in verify() too
 _counter = itertools.count()
 _built = collections.OrderedDict()
 
@@ -163,7 +163,11 @@ def strategy(ctx):
             elif d['k'] == 'define' and not 1 <= d['value'] <= 9:      # (1..9 may be array lengths later on)
                 if draw(st.booleans()):
                     partial[str(i)] = []            # rendered as  #define NAME ...
-            elif d['k'] == 'func':
+            elif d['k'] == 'enum' and d.get('tag') and draw(st.integers(0, 2)) == 0:
+                partial[str(i)] = [draw(st.integers(0, 1))]       # 'A, B, ...' / 'A = ..., B = ...'
+            elif d['k'] == 'gvar' and d['type'][0] == 'arr' and draw(st.booleans()):
+                partial[str(i)] = []                # extern T name[...];
+            if d['k'] == 'func':
                 for _ in range(draw(st.integers(4, 10))):
                     calls.append([i, [draw(arg_strategy(spec, t)) for t in d['args']]])
             elif d['k'] == 'gvar' and d['type'][0] == 'prim':
@@ -183,6 +187,15 @@ def render_cdef(spec, partial):
     for i, (d, (text, _)) in enumerate(zip(spec['decls'], cdefgen.decl_lines(spec))):
         if str(i) in partial and d['k'] == 'define':
             text = '#define %s ...' % d['name']
+        elif str(i) in partial and d['k'] == 'enum':
+            names = [n for n, _ in d['items']]
+            body = (', '.join(names) + ', ...') if partial[str(i)] == [0] else ', '.join(n + ' = ...' for n in names)
+            if d.get('tdname'):
+                text = 'typedef enum %s { %s } %s;' % (d['tag'], body, d['tdname'])
+            else:
+                text = 'enum %s { %s };' % (d['tag'], body)
+        elif str(i) in partial and d['k'] == 'gvar':
+            text = 'extern %s;' % cdefgen.declarator(['arr', '...', d['type'][2]], d['name'])
         elif str(i) in partial:
             keep = partial[str(i)]
             body = ' '.join('%s;' % cdefgen.declarator(d['fields'][j][1], d['fields'][j][0]) for j in keep)
@@ -364,7 +377,8 @@ def prop(case, ctx):
             for name, v in _enum_values(d):
                 check('enumerator %s' % name,
                       [_outcome(lambda e=e: _value(builds[e][0], getattr(builds[e][1], name))) for e in ENGINES],
-                      'enumerator', expected=['int', v])
+                      ['enumerator', 'enumerator-value-from-compiler' if str(i) in partial else 'enumerator-value-in-cdef'],
+                      expected=['int', v])
             check('sizeof(enum %s)' % d['tag'],
                   [_outcome(lambda e=e: builds[e][0].sizeof('enum ' + d['tag'])) for e in ENGINES], 'layout-enum')
         # 3. layouts
@@ -394,7 +408,7 @@ def prop(case, ctx):
                 exp = ['ptr', 0]
             check('initial value of global %s' % d['name'],
                   [_outcome(lambda e=e: _value(builds[e][0], getattr(builds[e][1], d['name']))) for e in ENGINES],
-                  'global-read', expected=exp)
+                  ['global-read'] + (['global-array-length-from-compiler'] if str(i) in partial else []), expected=exp)
     for i, v in case['gsets']:
         d = decls[i]
 
@@ -416,8 +430,12 @@ def prop(case, ctx):
         def call(e):
             ffi, lib = builds[e]
             a = [_build_arg(ffi, lib, v, cdefgen.declarator(t, '')) for v, t in zip(args, d['args'])]
+            if d.get('ellipsis') and len(str(args)) % 2:
+                a += [ffi.cast('int', 3), ffi.cast('double', 1.5), ffi.NULL]     # ignored by the C body
             return _value(ffi, getattr(lib, d['name'])(*a))
         outs = [_outcome(lambda e=e: call(e)) for e in ENGINES]
         proto = cdefgen.declarator(d['ret'], d['name']) + '(' + ', '.join(cdefgen.declarator(t, '') for t in d['args']) + ')'
         check('call of ' + proto, outs, ['call', 'call:' + ('ok' if outs[0][0] == 'ok' else outs[0][1]),
-                                         'call-nargs>=3' if len(args) >= 3 else 'call-nargs<3'], key=args)
+                                         'call-nargs>=3' if len(args) >= 3 else 'call-nargs<3']
+              + (['call-variadic:' + ('with-extra-args' if len(str(args)) % 2 else 'fixed-args-only')]
+                 if d.get('ellipsis') else []), key=args)
